@@ -253,6 +253,7 @@ type pathCtx struct {
 	clock                                                       int64
 	rangeHits                                                   int
 	bridgeName                                                  string
+	curFn                                                       string
 	stack                                                       []*frame
 	panicStack                                                  string
 }
